@@ -32,11 +32,15 @@ def run(res, tier, only=None):
             raise Inconclusive("socks-run errors: " + "; ".join(s["errors"][:3]))
         if s["cases"] != len(g["vout"]) or s["served"] == 0:
             raise Inconclusive(f"socks-run ran {s['cases']} of {len(g['vout'])} cases, {s['served']} served (vacuous?)")
+        if s.get("server_sequence_served", 0) * 4 != s.get("server_sequence_connections", -1):
+            raise Inconclusive(f"server sequence: {s.get('server_sequence_served')} legitimate sessions served out of {s.get('server_sequence_connections')} connections (vacuous?)")
         n, bad, st = validate_traces(tmp, tr, "socks_traces.ndjson", "L4Socks5Trace.tla", "L4Socks5Trace.cfg")
         cov.update(states=g["distinct"], transitions=g["generated"], traces_validated_against_impl=n,
                    cases=dict(enumerated=len(g["vout"]), served_by_real_handler=s["served"], reference_allows=s["may_serve"],
                               rule="7 command lists (default, single, mixed case, placeholder) x 8 credential maps (none, one, two, empty name, empty name + real, empty password, placeholders set / unset) x 6 method lists x 6 sub-negotiation variants x 5 command codes x address types; enumerated exhaustively by TLC"),
-                   exhaustive=True, samples=s["samples"][:3])
+                   exhaustive=True, samples=s["samples"][:3],
+                   server_sequence=dict(connections=s["server_sequence_connections"], legitimate_sessions_served=s["server_sequence_served"],
+                                        rule="through one real layer4 Server (socks5 matcher -> socks5 handler with credentials), consecutively: a non-SOCKS stream, a legitimate whole session, a one-byte client, a silent client; 8 rounds on one P without garbage collection (pooled matching buffers pass from connection to connection)"))
         traces = {}
         for line in open(tr):
             t = json.loads(line)
